@@ -11,7 +11,7 @@ WARN = -Wall -Wno-unused-local-typedef -Wno-deprecated-declarations -Wno-unused-
 BASE = $(STD) $(WARN) -g -DPARMCB_VERIF -DBOOST_ALLOW_DEPRECATED_HEADERS -DBOOST_BIND_GLOBAL_PLACEHOLDERS -fno-omit-frame-pointer -MMD -MP
 
 FLAGS_asu = -O1 -fsanitize=address,undefined -fno-sanitize-recover=all -fno-sanitize=vptr
-FLAGS_tsan = -O1 -fsanitize=thread
+FLAGS_tsan = -O1 -fsanitize=thread -Wl,--wrap=_Znwm,--wrap=_Znam,--wrap=_ZdlPv,--wrap=_ZdaPv,--wrap=_ZdlPvm,--wrap=_ZdaPvm
 FLAGS_plain = -O2
 
 INC_seq = -I$(B)/gen/seq -I$(REPO)/include
